@@ -137,6 +137,8 @@ def doy_forms(day, month, month_names=None):
         nmc = nm.capitalize()
         out += ["{}. {}".format(day, nmc), "{} {}".format(nmc, day), "{}th of {}".format(day, nmc) if day not in (1, 2, 3, 21, 22, 23, 31)
                 else "{}{} of {}".format(day, {1: "st", 2: "nd", 3: "rd"}[day % 10], nmc), "{} {}".format(day, nmc)]
+        # glued notations of the numeric day/month patterns with a month name (rules.py ruleDDMM / ruleMMDD)
+        out += ["{}/{}".format(day, nm), "{}/{}".format(nmc, day), "{}-{}".format(nm, day), "{}.{}".format(day, nmc)]
     return out
 
 
@@ -144,8 +146,10 @@ def doy_forms(day, month, month_names=None):
 POD_FORMS = {
     # not listed: 'so früh', 'so früh/spät wie möglich' - 'so' is also the pattern's abbreviation of Sunday
     "first": ["first", "earliest", "as early", "erste", "erster", "frühestens", "frühest",
-              "as early as possible", "first possible", "frühestens möglich"],
-    "last": ["last", "latest", "letzte", "letzter", "as late as possible", "spätest möglich"],
+              "as early as possible", "first possible", "frühestens möglich", "erster möglicher", "erste mögliche",
+              "frühest wie möglich", "earliest possible", "frühstens"],
+    "last": ["last", "latest", "letzte", "letzter", "as late as possible", "spätest möglich", "spätest möglicher",
+             "spätest mögliche"],
     "earlymorning": ["very early", "sehr früh"],
     "lateevening": ["very late", "sehr spät"],
     "morning": ["morning", "morgens", "morgends", "früh", "frühe", "in der früh", "in der frühe"],
@@ -157,7 +161,7 @@ POD_FORMS = {
 }
 # single modifiers (rules.py:112-119): modifier word -> prefix of the pod_hours key
 POD_MODS = {"early": "early", "late": "late", "very early": "veryearly", "very late": "verylate",
-            "früh": "early", "früher": "early", "frühen": "early", "spät": "late", "später": "late", "späten": "late",
+            "früh": "early", "früher": "early", "frühen": "early", "frühem": "early", "spät": "late", "später": "late", "späten": "late", "spätem": "late",
             "sehr früh": "veryearly", "sehr spät": "verylate"}
 POD_MOD_BASES = {"morning": ["morning", "morgens"], "afternoon": ["afternoon", "nachmittag"], "evening": ["evening", "abend"],
                  "night": ["night", "nacht"], "forenoon": ["forenoon", "vormittag"], "noon": ["noon", "mittag"]}
